@@ -195,6 +195,27 @@ Executed(b, j, z) == LET mine(a) == LET m(e) == e.a = a IN SelectSeq(j, m)
 \* Manager.Save of the finalised state s fails
 SaveFails(s, j, z, g, Dv) == /\ "Dev_SaveFailsOnDirtyEmptyCode" \in Dv
                              /\ \E a \in DOMAIN s : <<a, "code">> \in g /\ Published(j, a, z, Dv) # <<>> /\ Get(s[a], "code", "") = ""
+\* ---- comparing two projections of real accounts (trace specifications)
+DropF(o, F) == [a \in DOMAIN o |-> [f \in DOMAIN o[a] \ F |-> o[a][f]]]
+\* The deviations needed to call the projections x and y the same: every getter must agree and every root must agree,
+\* but for root differences the listed deviations explain - each only on a ghost pair (g) of its kind and, where the
+\* outcome is predictable, only with the predicted values (z = zero hash, e = hash of the empty trie):
+\*   Dev_EmptyWriteLeavesEmptyRoot            one side has the hash of the empty trie where the other has the zero root
+\*   Dev_UndoAssetProfileKeyLeavesEmptyEntry  the asset-code roots differ (an entry "" against no entry)
+\* "MISMATCH" (never an allowed deviation) when nothing explains the difference.
+RootDevs(x, y, g, z, e) ==
+  IF DropF(x, Roots) # DropF(y, Roots) THEN {"MISMATCH"}
+  ELSE LET D  == {p \in (DOMAIN x) \X Roots : p[2] \in DOMAIN x[p[1]] /\ x[p[1]][p[2]] # y[p[1]][p[2]]}
+           De == {p \in D : p \in g /\ {x[p[1]][p[2]], y[p[1]][p[2]]} = {e, z}}
+           Dp == {p \in D \ De : p[2] = "rac" /\ <<p[1], "afrkey">> \in g}
+       IN (IF D \subseteq De \cup Dp THEN {} ELSE {"MISMATCH"})
+          \cup (IF De # {} THEN {"Dev_EmptyWriteLeavesEmptyRoot"} ELSE {})
+          \cup (IF Dp # {} THEN {"Dev_UndoAssetProfileKeyLeavesEmptyEntry"} ELSE {})
+RootLogName(f) == CASE f = "rs" -> "StorageRootLog" [] f = "rac" -> "AssetCodeRootLog" [] f = "rai" -> "AssetIdRootLog" [] f = "req" -> "EquityRootLog"
+\* the published logs p without the root logs of the roots in which x and y differ
+SansDifferingRootLogs(p, x, y) ==
+  LET keep(l) == ~\E a \in DOMAIN x : \E f \in Roots \cap DOMAIN x[a] : x[a][f] # y[a][f] /\ l.a = a /\ l.t = RootLogName(f)
+  IN SelectSeq(p, keep)
 \* what a node that loads the saved block sees: events and the self-destruct flag are not persisted
 Volatile == {"ev", "sui"}
 Persisted(s) == [a \in DOMAIN s |-> [f \in DOMAIN s[a] |-> IF f = "ev" THEN 0 ELSE IF f = "sui" THEN FALSE ELSE s[a][f]]]
